@@ -153,6 +153,7 @@ def get_image_quadrants(IM, reorient=True, symmetry_axis=None,
         if np.sum(use_quadrants)<4:
             warnings.warn("Using Fourier transformation to symmetrize the"
                           " data will use all 4 quadrants!!")
+            use_quadrants = (True, True, True, True)
         # the mirror axis is the image center, (size - 1)/2, not index 0:
         # move it to the FFT origin with a phase factor, drop the imaginary
         # components there and move it back
